@@ -147,6 +147,10 @@ def C07_partial : Prop :=
 theorem c07_partial : C07_partial :=
   ⟨ignored_rules_listed, fun a dots b h => (range_literal_faithful_partial a dots b h).1, emit_build_fixed_range⟩
 
+/-- the float formatting `emit` models (`fmtFloat`: positional digits, `.0` for integral values, no exponent form) is exactly the
+text of format.formatFloatLiteral -/
+theorem float_format_as_modelled : Generated.Visitors.srcFormatFloatLiteral = expectedFormatFloatLiteral := rfl
+
 /-- `Represented` separates the two sample trees -/
 theorem represented_samples : C.represented sampleQ = true ∧ C.represented idxTree = false := by decide +kernel
 
